@@ -129,8 +129,16 @@ def gen_long(rng):
     return mode, rng.choice([True, False, "mixed"]), loads
 
 
+WRITER_LAYOUT_STREAMS = [0]
+
+
 def build_stream(mode, doubled, loads, rng=None, base=60, step=30 * 8, drop=False):
     dd = (lambda: rng.random() < 0.5) if doubled == "mixed" else (lambda: bool(doubled))
+    # audit (wave 7): a third of the pop-on programs in the layout pycaption's own SCCWriter produces - Erase-Displayed-Memory
+    # INSIDE the load line before its End-Of-Caption, column-0 white preamble codes in the indent-0 form (attribute 16 / 17).
+    # The choice is a function of the set of rows only, so every transmission order of a load gets the same layout.
+    writer = mode == "pop" and sum(r["row"] + len(r["toks"]) for l in loads for r in l) % 3 == 0
+    WRITER_LAYOUT_STREAMS[0] += writer
     lines = []
     t = base
     for load in loads:
@@ -143,7 +151,9 @@ def build_stream(mode, doubled, loads, rng=None, base=60, step=30 * 8, drop=Fals
             ws += g.dbl([{"roll2": g.RU2, "roll3": g.RU3, "roll4": g.RU4}[mode]], dd()) + g.dbl([g.CR], dd())
         for r in load:
             st = r["style"]
-            if r["indent"]:
+            if writer and not r["indent"] and st < 2:
+                unit = [g.pac_indent0(r["row"], underline=bool(st & 1))]
+            elif r["indent"]:
                 unit = [g.pac(r["row"], r["indent"], underline=bool(st & 1))]
             elif st >= 14:
                 unit = [g.pac(r["row"], italics=True, underline=bool(st & 1))]
@@ -154,6 +164,8 @@ def build_stream(mode, doubled, loads, rng=None, base=60, step=30 * 8, drop=Fals
             ws += unit * 2 if dd() else unit
             ws += g.tokens_words(r["toks"], dd)
         if mode == "pop":
+            if writer:
+                ws += g.dbl([g.EDM], dd())
             ws += g.dbl([g.EOC], dd())
         lines.append((g.timecode(t, drop), ws))
         t += max(step, len(ws) + 45)
@@ -240,6 +252,7 @@ def run(ctx):
             "info_message_differs_from_model": 0, "info_private_store_differs_from_rows": 0,
             "info_private_store_unavailable": 0}
     res["distribution"] = dist
+    WRITER_LAYOUT_STREAMS[0] = 0
     cases = []       # (gid, mode, doubled, loads, stream)
     ngroups = ctx.n(110, 3000)
     fixed = [(sh, m, d) for sh in ("break+repos", "trailing-blank", "leading-blank-first", "leading-blank-later") for m in ("pop", "paint", "roll2", "roll3", "roll4")
@@ -384,6 +397,7 @@ def run(ctx):
     res["notes"].append("streams whose rows are all empty raise CaptionReadNoCaptions and are counted, not judged")
     res["notes"].append("counted information, not judged: exact wording of the message vs the model; the reader's private "
                         "caption store vs the transmitted rows")
+    dist["pop_on_streams_in_writer_layout"] = WRITER_LAYOUT_STREAMS[0]
     return res
 
 
